@@ -53,8 +53,9 @@ def swapped_arguments(ctx, P, rule, crates, only_params=None):
                         found.append((b, blk, T.short(callee.path), pn[i], pn[j]))
             # one-sided: a parameter receives the value that is named exactly like ANOTHER same-typed parameter of the callee
             # (`new(.., queue_size: cfg.queue_size, .., max_connections: cfg.queue_size)`), and nothing named like itself
+            # (not for operator / trait methods: `*other == X` is `eq(self: other, other: X)` and means nothing of the kind)
             for i in range(len(pn)):
-                if not pn[i] or len(leaves[i]) != 1:
+                if not pn[i] or len(leaves[i]) != 1 or callee.impl_trait or pn[i] == "self" or callee.raw.get("trait_default_of"):
                     continue
                 nm = next(iter(leaves[i]))
                 if nm == pn[i]:
